@@ -102,7 +102,15 @@ template <class G> Obs iterSeg(const G &g) {
     std::vector<BaseGraph::VertexIndex> vfor, vpost; for (auto v : g) vfor.push_back(v);
     { auto it = g.begin(); while (it != g.end()) { auto old = it++; vpost.push_back(*old); } }
     o.push_back(pre == post && vfor == vpost); o.push_back(pre == again);
-    o.push_back(guard([&]() -> Z { auto es = g.edges(); bool eq = es.begin() == es.end(); bool ne = es.begin() != es.end(); return eq == ne ? -7 : (Z)eq; }));
+    o.push_back(guard([&]() -> Z {
+        auto es = g.edges(); bool eq = es.begin() == es.end(); bool ne = es.begin() != es.end();
+        if (eq == ne) return -7;
+        // the same question asked of two separate edges() ranges of the one graph, and a traversal written with separate calls
+        bool eq2 = g.edges().begin() == g.edges().end(), ne2 = g.edges().begin() != g.edges().end();
+        if (eq2 != eq || ne2 != ne) return -8;
+        size_t k = 0; for (auto it = g.edges().begin(); it != g.edges().end(); ++it) if (++k > pre.size()) break;
+        if (k != pre.size()) return -8;
+        return (Z)eq; }));
     return o;
 }
 inline std::vector<std::string> splitOps(const std::string &body) {
